@@ -14,6 +14,9 @@ for f in sorted(os.listdir(d)):
     for ln in open(os.path.join(d, f), errors="replace"):
         m = re.match(r'(C\d+) VIOLATION rule=(\S+) key="((?:[^"\\]|\\.)*)"', ln)
         if not m:
+            m2 = re.match(r'(C\d+) (ANALYSIS-FAILED|UNDECIDED|panic)', ln)
+            if m2:
+                by.setdefault(m2.group(1), set()).add(m2.group(2))
             continue
         pr, rule, key = m.group(1), m.group(2), m.group(3).replace('\\"', '"')
         if (pr, rule, key) in known:
